@@ -85,6 +85,9 @@ const (
 	didIx  = "did:nuts:issuer10"
 	didJp  = "did:web:example.com:iam:issuer"
 	didJx  = "did:web:example.com:iam:issuer20"
+	// wave 9: DIDs that differ from the issuers' DIDs ONLY in letter case, controlled by other parties (own keys)
+	didJc = "did:web:example.com:iam:Issuer2"
+	didIc = "did:nuts:Issuer1"
 	didRt  = "did:web:example.com"
 	didB   = "did:web:based.example.com"    // its document uses @base + relative key ids
 	didE   = "did:web:example.com:iam:p384" // its assertion key is a P-384 key
@@ -1843,7 +1846,7 @@ func newC01Nodes(t *testing.T) *c01Nodes {
 	j1, j10 := w.newKey(didJ+"#k1"), w.newKey(didJ+"#k10")
 	w.hist[didJ] = []c01Version{{From: T(-1000), Assert: [][2]string{{didJ + "#k10", j10}}},
 		{From: T(110), Assert: [][2]string{{didJ + "#k1", j1}, {didJ + "#k10", j10}}}}
-	for _, la := range []string{didIp, didIx, didJp, didJx, didRt} {
+	for _, la := range []string{didIp, didIx, didJp, didJx, didRt, didJc, didIc} {
 		w.hist[la] = []c01Version{{From: T(-1000), Assert: [][2]string{{la + "#k1", w.newKey(la + "#k1")}}}}
 	}
 	// issuer B: @base document; #k1 assertion; #k2 authentication ONLY; #k3 assertion at first, demoted to authentication at +1500
@@ -2378,6 +2381,30 @@ func (n *c01Nodes) auditLegs(o *c01Out, rnd *rand.Rand, creds map[string]string)
 		}
 	}
 	n.setTrust(o, "NutsOrganizationCredential", didI, true)
+	n.setTrust(o, "HumanCredential", didI, true)
+
+	at9 := nowS
+	// wave 9: trust is given to an EXACT issuer string. A genuine credential of a never-trusted issuer whose DID differs only in letter
+	// case from a trusted one must be refused when trust is required; and trusting that DID explicitly (and dropping the other) works.
+	for _, pr := range [][2]string{{didJ, didJc}, {didI, didIc}} {
+		trustedDID, variant := pr[0], pr[1]
+		n.setTrust(o, "HumanCredential", trustedDID, true)
+		texts := map[string]string{}
+		for _, f := range []string{vc.JSONLDCredentialProofFormat, vc.JWTCredentialProofFormat} {
+			texts[f] = n.handIssueHuman(variant, variant+"#k1", f, nowS-100)
+			lbl := "trust-case:" + variant + ":" + f
+			n.run(o, c01Call{kind: "vc", text: texts[f], at: &at9, allowUntrusted: true, checkSig: true, label: lbl + "@untrusted-allowed", base: lbl})
+			n.run(o, c01Call{kind: "vc", text: texts[f], at: &at9, allowUntrusted: false, checkSig: true, label: lbl, base: lbl, mut: "trust-case-variant"})
+			n.run(o, c01Call{kind: "vc", text: texts[f], at: &at9, allowUntrusted: false, checkSig: false, label: lbl + "@nosig", base: lbl, mut: "trust-case-variant"})
+		}
+		n.setTrust(o, "HumanCredential", variant, true)
+		n.setTrust(o, "HumanCredential", trustedDID, false)
+		for _, f := range []string{vc.JSONLDCredentialProofFormat, vc.JWTCredentialProofFormat} {
+			lbl := "trust-case:" + variant + ":" + f
+			n.run(o, c01Call{kind: "vc", text: texts[f], at: &at9, allowUntrusted: false, checkSig: true, label: lbl + "@itself-trusted", base: lbl, mut: "trust-case-itself"})
+		}
+		n.setTrust(o, "HumanCredential", variant, false)
+	}
 	n.setTrust(o, "HumanCredential", didI, true)
 
 	// the revocation store cannot answer: nothing is reported valid (credentials with an id), directly and through the API
@@ -3380,6 +3407,31 @@ func (n *c01Nodes) handIssueTo(issuerDID, kid, format string, at int64, subject,
 	id := u(issuerDID + "#" + strings.ReplaceAll(kid[strings.Index(kid, "#")+1:], "#", "") + "-" + format + suffix)
 	un := vc.VerifiableCredential{Context: []ssi.URI{u(ctxVC)}, ID: &id, Type: []ssi.URI{u("VerifiableCredential")}, Issuer: u(issuerDID),
 		IssuanceDate: time.Unix(at, 0).UTC(), CredentialSubject: []any{map[string]any{"id": subject}}}
+	if format == vc.JWTCredentialProofFormat {
+		c, err := vc.CreateJWTVerifiableCredential(n.w.ctx, un, func(ctx context.Context, claims map[string]interface{}, headers map[string]interface{}) (string, error) {
+			return n.w.ks.SignJWT(ctx, claims, headers, kid)
+		})
+		if err != nil {
+			n.w.t.Fatal(err)
+		}
+		return c.Raw()
+	}
+	b, _ := json.Marshal(un)
+	var m map[string]any
+	_ = json.Unmarshal(b, &m)
+	signed, err := proof.NewLDProof(proof.ProofOptions{Created: un.IssuanceDate}).Sign(n.w.ctx, m, signature.JSONWebSignature2020{ContextLoader: n.w.loader, Signer: n.w.ks}, kid)
+	if err != nil {
+		n.w.t.Fatal(err)
+	}
+	return mustJSON(signed)
+}
+
+// handIssueHuman: a HumanCredential (trust is required for its type) about the holder, signed by hand with the given issuer's key
+func (n *c01Nodes) handIssueHuman(issuerDID, kid, format string, at int64) string {
+	u := ssi.MustParseURI
+	id := u(issuerDID + "#human-" + format)
+	un := vc.VerifiableCredential{Context: []ssi.URI{u(ctxVC), u(ctxEx)}, ID: &id, Type: []ssi.URI{u("VerifiableCredential"), u("HumanCredential")}, Issuer: u(issuerDID),
+		IssuanceDate: time.Unix(at, 0).UTC(), CredentialSubject: []any{map[string]any{"id": didH, "human": map[string]any{"eyeColour": "grey", "hairColour": "red"}}}}
 	if format == vc.JWTCredentialProofFormat {
 		c, err := vc.CreateJWTVerifiableCredential(n.w.ctx, un, func(ctx context.Context, claims map[string]interface{}, headers map[string]interface{}) (string, error) {
 			return n.w.ks.SignJWT(ctx, claims, headers, kid)
